@@ -52,10 +52,21 @@ var c14pkgs = []string{"", "/socket", "/utils", "/proto/thriftproto", "/plugin/o
 var c14tracked = map[string]bool{
 	"erpc.session": true, "erpc.callCmd": true, "erpc.handlerCtx": true, "erpc.peer": true,
 	"erpc.SessionHub": true, "erpc.PluginContainer": true, "erpc.pluginSingleContainer": true,
-	"socket.socket":          true,
+	"socket.socket":            true,
 	"thriftproto.tBinaryProto": true, "thriftproto.tStructProto": true,
 	"utils.ReadWriteCounter": true, "utils.ReadCounter": true, "utils.WriteCounter": true,
 	"overloader.Overloader": true, "overloader.connLimiter": true, "overloader.qpsLimiter": true,
+}
+
+// named types declared as another tracked struct type share its fields and lock classes
+// (`type tStructProto tBinaryProto`)
+var c14structAlias = map[string]string{"tStructProto": "tBinaryProto"}
+
+func c14canon(name string) string {
+	if a, ok := c14structAlias[name]; ok {
+		return a
+	}
+	return name
 }
 
 // passive structs: their methods are attributed to call sites
@@ -80,8 +91,12 @@ var c14summaries = map[string][]c14sumLock{
 	"socket.socket.initOptimize": {{"", "socket.mu", true}},
 	// bindReply locks callCmd.mu and returns with it held; handleReply (same message, next
 	// goroutine, started with `go`) unlocks it. Not checkable lexically: unchecked summary.
-	"erpc.handlerCtx.handleReply": {{".callCmd", "callCmd.mu", true}},
-	"erpc.handlerCtx.abortReply":  {{".callCmd", "callCmd.mu", true}}, // same hand-over, read loop side
+	// helpers of Overloader.Update, which holds limitConfigLock for the whole update
+	"overloader.Overloader.updateConnLimiter":     {{"", "Overloader.limitConfigLock", true}},
+	"overloader.Overloader.updateTotalQPSLimiter": {{"", "Overloader.limitConfigLock", true}},
+	"overloader.Overloader.updateHandlerLimiter":  {{"", "Overloader.limitConfigLock", true}},
+	"erpc.handlerCtx.handleReply":                 {{".callCmd", "callCmd.mu", true}},
+	"erpc.handlerCtx.abortReply":                  {{".callCmd", "callCmd.mu", true}}, // same hand-over, read loop side
 }
 
 // closures stored in a field and documented as "called with the lock held"
@@ -98,12 +113,12 @@ type c14lock struct {
 }
 
 type c14row struct {
-	Struct, Field, Fn      string
-	Write, Atomic, Pre     bool
-	Locks                  []c14lock // only related locks survive into the output
-	Line                   int
-	File                   string
-	base                   string
+	Struct, Field, Fn  string
+	Write, Atomic, Pre bool
+	Locks              []c14lock // only related locks survive into the output
+	Line               int
+	File               string
+	base               string
 }
 
 type c14call struct {
@@ -345,6 +360,7 @@ type c14walker struct {
 	fn       string
 	file     string
 	fresh    map[string]bool
+	alias    map[string]string // local variable -> expression it was bound to (x := o.f[k])
 	closures int
 	// locks a function literal starts with (field summaries)
 	pendingClosureLocks map[*ast.FuncLit][]c14lock
@@ -424,6 +440,21 @@ func (w *c14walker) stmt(s ast.Stmt, ls []c14lock) ([]c14lock, bool) {
 					w.fresh[id.Name] = true
 				} else if s.Tok == token.ASSIGN {
 					delete(w.fresh, id.Name) // re-bound: no longer known to be fresh
+				}
+			}
+			// x := base.f  /  x, ok := base.m[k] : x names (part of) base's object
+			if id, ok := l.(*ast.Ident); ok && i == 0 && len(s.Rhs) >= 1 {
+				if w.alias == nil {
+					w.alias = map[string]string{}
+				}
+				if s.Tok == token.DEFINE {
+					delete(w.alias, id.Name) // a plain re-assignment in a branch keeps the binding (flow-insensitive)
+				}
+				switch rhs := s.Rhs[0].(type) {
+				case *ast.SelectorExpr, *ast.IndexExpr:
+					if r := rootIdent(stripIndex(rhs)); r != "" && r != id.Name && (len(s.Lhs) == len(s.Rhs) || len(s.Rhs) == 1) {
+						w.alias[id.Name] = w.baseString(rhs)
+					}
 				}
 			}
 			// closure stored in a field documented as "called with the lock held"
@@ -586,7 +617,7 @@ func (w *c14walker) lockOp(call *ast.CallExpr) (base, class, op string, ok bool)
 	if owner == "" {
 		return
 	}
-	return types.ExprString(inner.X), owner + "." + field, sel.Sel.Name, true
+	return w.baseString(inner.X), owner + "." + field, sel.Sel.Name, true
 }
 
 func isMutexType(t types.Type) bool {
@@ -634,7 +665,7 @@ func (g *c14gen) fieldSteps(info *types.Info, sel *ast.SelectorExpr) [][2]string
 		if named != nil && named.Obj().Pkg() != nil {
 			q := named.Obj().Pkg().Name() + "." + named.Obj().Name()
 			if c14tracked[q] {
-				out = append(out, [2]string{named.Obj().Name(), f.Name()})
+				out = append(out, [2]string{c14canon(named.Obj().Name()), f.Name()})
 			} else {
 				out = append(out, [2]string{"", f.Name()})
 			}
@@ -661,6 +692,48 @@ func (w *c14walker) isFreshExpr(e ast.Expr) bool {
 		}
 	}
 	return false
+}
+
+func stripIndex(e ast.Expr) ast.Expr {
+	for {
+		if ix, ok := e.(*ast.IndexExpr); ok {
+			e = ix.X
+			continue
+		}
+		return e
+	}
+}
+
+// baseString renders an access path with local aliases expanded at the root.
+func (w *c14walker) baseString(e ast.Expr) string {
+	str := types.ExprString(e)
+	r := rootIdent(stripIndexDeep(e))
+	if a, ok := w.alias[r]; ok && r != "" {
+		if str == r {
+			return a
+		}
+		if strings.HasPrefix(str, r+".") || strings.HasPrefix(str, r+"[") {
+			return a + str[len(r):]
+		}
+	}
+	return str
+}
+
+func stripIndexDeep(e ast.Expr) ast.Expr {
+	for {
+		switch x := e.(type) {
+		case *ast.IndexExpr:
+			e = x.X
+		case *ast.SelectorExpr:
+			e = x.X
+		case *ast.ParenExpr:
+			e = x.X
+		case *ast.StarExpr:
+			e = x.X
+		default:
+			return e
+		}
+	}
 }
 
 func rootIdent(e ast.Expr) string {
@@ -719,7 +792,7 @@ func (w *c14walker) selector(x *ast.SelectorExpr, ls []c14lock, write, atomic bo
 	steps := w.g.fieldSteps(w.g.info, x)
 	sel := w.g.info.Selections[x]
 	if sel != nil {
-		base := types.ExprString(x.X)
+		base := w.baseString(x.X)
 		fresh := w.fresh[rootIdent(x.X)]
 		for i, st := range steps {
 			if st[0] == "" {
@@ -810,7 +883,7 @@ func (w *c14walker) composite(cl *ast.CompositeLit, ls []c14lock) {
 		t := tv.Type
 		if named, ok := t.(*types.Named); ok && named.Obj().Pkg() != nil {
 			if c14tracked[named.Obj().Pkg().Name()+"."+named.Obj().Name()] {
-				structName = named.Obj().Name()
+				structName = c14canon(named.Obj().Name())
 			}
 		}
 	}
@@ -1072,7 +1145,7 @@ func (w *c14walker) call(call *ast.CallExpr, ls []c14lock) {
 			if inner, ok := fun.X.(*ast.SelectorExpr); ok {
 				owner, field := w.fieldOwner(inner)
 				if owner != "" {
-					base := types.ExprString(inner.X)
+					base := w.baseString(inner.X)
 					fresh := w.fresh[rootIdent(inner.X)]
 					switch fun.Sel.Name {
 					case "Add":
@@ -1087,7 +1160,7 @@ func (w *c14walker) call(call *ast.CallExpr, ls []c14lock) {
 		}
 		// passive method: attribute to this call site
 		if key := w.passiveMethod(fun); key != "" {
-			base := types.ExprString(fun.X)
+			base := w.baseString(fun.X)
 			fresh := w.fresh[rootIdent(fun.X)]
 			// implicit embedded steps are reads of the embedding fields
 			w.selector(fun, ls, false, false)
@@ -1128,7 +1201,7 @@ func (w *c14walker) checkSummary(fun *ast.SelectorExpr, ls []c14lock) {
 	if len(sum) == 0 || c14uncheckedSummaries[callee] {
 		return
 	}
-	recv := types.ExprString(fun.X)
+	recv := w.baseString(fun.X)
 	ok := true
 	for _, sl := range sum {
 		found := false
